@@ -142,6 +142,58 @@ type world struct {
 	pend     []pubRec         // effective uploads not yet judged
 	released map[string][]rel // origin -> witness-cosigned checkpoints released so far (answers and bucket objects)
 	evs      []ev             // compact history of the requests of this world
+	dead     bool             // a request did not come back (mon_watchdog): the rest of this world's scenario is skipped
+}
+
+// No single request may block the run: every wait for the implementation is bounded by this.
+const watchdog = 6 * time.Second
+
+// a request did not come back: report it (with the history) and give up this world
+func (w *world) stuck(i int, origin, what string) {
+	w.dead = true
+	mon("mon_watchdog", []string{fmt.Sprint(i), hx([]byte(origin))}, false,
+		fmt.Sprintf("%s on instance %d did not complete within %s (blocked inside the implementation, or behind a request that is); the rest of this world's scenario is skipped; history: %s",
+			what, i, watchdog, w.history(origin)))
+}
+
+// post with the watchdog; ok = false: no answer (the goroutine is abandoned)
+func (w *world) postWD(in *inst, path string, body []byte) (result, bool) {
+	ch := make(chan result, 1)
+	go func() { ch <- w.post(in, path, body) }()
+	select {
+	case res := <-ch:
+		return res, true
+	case <-time.After(watchdog):
+		return result{status: "timeout", body: "-", signers: "-"}, false
+	}
+}
+
+// Requests of instance i that are still parked although the scenario is done with them (the implementation made more
+// gated calls than planned): let them run to completion, every further call with fault ok.
+func (w *world) flushHeld(i int) {
+	var ks []string
+	for k := range w.heldReq {
+		if strings.HasPrefix(k, fmt.Sprint(i)+"/") {
+			ks = append(ks, k)
+		}
+	}
+	sort.Strings(ks)
+	for _, k := range ks {
+		_, origin, _ := strings.Cut(k, "/")
+		for n := 0; n < 4 && w.heldReq[k] != nil && !w.dead; n++ {
+			w.evs = append(w.evs, ev{origin, "(request still parked after the planned steps: let through)"})
+			w.stepHeld(i, origin, fOK)
+		}
+	}
+}
+
+// " UNPLANNED backend calls: ..." when the last request of the instance made calls beyond the plan
+func unplannedNote(in *inst) string {
+	if c := in.p.takeCalls(); c != "" {
+		stats["requests_with_unplanned_backend_calls"]++
+		return " UNPLANNED backend calls (let through, fault ok): " + c
+	}
+	return ""
 }
 
 type rec struct {
@@ -171,6 +223,10 @@ func newWorld(kr *keyring, mirror bool, tmp string, gt []*tree) *world {
 }
 
 func (w *world) restart(i int) {
+	if w.dead {
+		return
+	}
+	w.flushHeld(i)
 	p := newPlan()
 	cfg := &witness.Config{
 		Name: witName, KeyEd25519: w.kr.wEd, KeyMLDSA44: w.kr.wML,
@@ -192,6 +248,9 @@ var listSeq int
 
 // PullLogList with a list of one log
 func (w *world) addLog(i int, origin string, keyID int, fcreate, ffetch, fcfetch, fconf fault) bool {
+	if w.dead {
+		return false
+	}
 	in := w.insts[i]
 	listSeq++
 	path := filepath.Join(w.tmp, fmt.Sprintf("list%d.txt", listSeq))
@@ -367,10 +426,15 @@ func fb(f fault) string {
 
 // sequential request: the whole request runs now with the given faults
 func (w *world) addSeq(i int, r addReq, ffetch, freplace, fupload fault, mayHang bool) result {
+	if w.dead {
+		return result{status: "skipped", body: "-", signers: "-"}
+	}
+	w.flushHeld(i)
 	in := w.insts[i]
 	in.p.clear()
 	in.p.fetch, in.p.replace, in.p.upload = ffetch, freplace, fupload
 	var res result
+	answered := true
 	if mayHang {
 		ch := make(chan result, 1)
 		go func() { ch <- w.post(in, "/add-checkpoint", r.body) }()
@@ -380,29 +444,39 @@ func (w *world) addSeq(i int, r addReq, ffetch, freplace, fupload fault, mayHang
 			res = result{status: "timeout", body: "-", signers: "-"}
 		}
 	} else {
-		res = w.post(in, "/add-checkpoint", r.body)
+		res, answered = w.postWD(in, "/add-checkpoint", r.body)
 	}
+	unpl := unplannedNote(in)
 	in.p.clear()
 	l, u := w.drain()
 	emit("add", []string{fmt.Sprint(i), "seq", fb(ffetch), fs(freplace), fs(fupload), r.hdr, r.note.abstract},
 		strings.Join([]string{res.status, res.body, res.signers, "lock=" + l, "up=" + u}, "|"))
-	w.event("?", i, "add", &r, "ff="+fb(ffetch)+" fr="+fs(freplace)+" fu="+fs(fupload), res.status, l, u)
+	w.event("?", i, "add", &r, "ff="+fb(ffetch)+" fr="+fs(freplace)+" fu="+fs(fupload)+unpl, res.status, l, u)
 	w.monUploads()
 	w.monResponse(r, res)
+	if !answered {
+		w.stuck(i, r.note.spec.origin, "an add-checkpoint request")
+	}
 	return res
 }
 
 // request that parks at its Lock.Replace / Backend.Upload gates
 func (w *world) addHold(i int, origin string, r addReq, ffetch fault) {
+	if w.dead {
+		return
+	}
+	w.flushHeld(i)
 	in := w.insts[i]
 	in.p.clear()
+	in.p.takeCalls()
 	in.p.fetch = ffetch
 	in.p.mu.Lock()
-	in.p.hold = true
+	in.p.hold, in.p.stage = true, 0
 	in.p.mu.Unlock()
 	h := &held{done: make(chan result, 1), r: r}
 	go func() { h.done <- w.post(in, "/add-checkpoint", r.body) }()
 	var res result
+	answered := true
 	select {
 	case h.at = <-in.p.arrived:
 		res = result{status: "pending", body: "-", signers: "-"}
@@ -411,14 +485,23 @@ func (w *world) addHold(i int, origin string, r addReq, ffetch fault) {
 		in.p.mu.Lock()
 		in.p.hold = false
 		in.p.mu.Unlock()
+	case <-time.After(watchdog):
+		res, answered = result{status: "timeout", body: "-", signers: "-"}, false
+	}
+	unpl := ""
+	if res.status != "pending" {
+		unpl = unplannedNote(in)
 	}
 	l, u := w.drain()
 	emit("add", []string{fmt.Sprint(i), "hold", fb(ffetch), "-", "-", r.hdr, r.note.abstract},
 		strings.Join([]string{res.status, res.body, res.signers, "lock=" + l, "up=" + u}, "|"))
-	w.event(origin, i, "add(parks at its first backend call)", &r, "ff="+fb(ffetch), res.status+"@"+h.at, l, u)
+	w.event(origin, i, "add(parks at its Lock.Replace, then at its Upload)", &r, "ff="+fb(ffetch)+unpl, res.status+"@"+h.at, l, u)
 	w.monUploads()
 	if res.status != "pending" {
 		w.monResponse(r, res)
+	}
+	if !answered {
+		w.stuck(i, origin, "an add-checkpoint request (neither parked at a backend call nor answered)")
 	}
 }
 
@@ -427,15 +510,19 @@ func (w *world) stepHeld(i int, origin string, f fault) {
 	in := w.insts[i]
 	k := fmt.Sprintf("%d/%s", i, origin)
 	h := w.heldReq[k]
-	if h == nil {
+	if h == nil || w.dead {
 		return
 	}
 	was := h.at
 	in.p.release <- f
 	var res result
+	answered := true
 	select {
 	case h.at = <-in.p.arrived:
 		res = result{status: "pending", body: "-", signers: "-"}
+	case <-time.After(watchdog):
+		res, answered = result{status: "timeout", body: "-", signers: "-"}, false
+		delete(w.heldReq, k)
 	case res = <-h.done:
 		h.at = ""
 		delete(w.heldReq, k)
@@ -446,10 +533,17 @@ func (w *world) stepHeld(i int, origin string, f fault) {
 	l, u := w.drain()
 	emit("step", []string{fmt.Sprint(i), hx([]byte(origin)), fs(f)},
 		strings.Join([]string{res.status, res.body, res.signers, "lock=" + l, "up=" + u}, "|"))
-	w.event(origin, i, "step(the parked request performs its "+was+" with fault "+fs(f)+")", nil, "", res.status+"@"+h.at, l, u)
+	unpl := ""
+	if res.status != "pending" {
+		unpl = unplannedNote(in)
+	}
+	w.event(origin, i, "step(the parked request performs its "+was+" with fault "+fs(f)+")", nil, unpl, res.status+"@"+h.at, l, u)
 	w.monUploads()
 	if res.status != "pending" {
 		w.monResponse(h.r, res)
+	}
+	if !answered {
+		w.stuck(i, origin, "a parked add-checkpoint request released at its "+was)
 	}
 }
 
@@ -469,6 +563,10 @@ type batchItem struct {
 
 // concurrent submissions to one instance; faults are keyed by the text of the note being written
 func (w *world) addBatch(i int, items []batchItem) {
+	if w.dead {
+		return
+	}
+	w.flushHeld(i)
 	in := w.insts[i]
 	in.p.clear()
 	in.p.mu.Lock()
@@ -490,8 +588,22 @@ func (w *world) addBatch(i int, items []batchItem) {
 	for k := range items {
 		go func(k int) { res[k] = w.post(in, "/add-checkpoint", items[k].r.body); done <- k }(k)
 	}
-	for range items {
-		<-done
+	answered := true
+	deadline := time.After(watchdog)
+	for n := 0; n < len(items) && answered; n++ {
+		select {
+		case <-done:
+		case <-deadline:
+			answered = false
+		}
+	}
+	if !answered {
+		// (the unanswered requests keep their goroutines; their slots are not read any more)
+		res2 := make([]result, len(items))
+		for k := range res2 {
+			res2[k] = result{status: "timeout", body: "-", signers: "-"}
+		}
+		res = res2
 	}
 	in.p.clear()
 	l, u := w.drain()
@@ -510,6 +622,9 @@ func (w *world) addBatch(i int, items []batchItem) {
 	w.monUploads()
 	for k, it := range items {
 		w.monResponse(it.r, res[k])
+	}
+	if !answered {
+		w.stuck(i, bo, "a concurrent batch of add-checkpoint requests")
 	}
 }
 
@@ -532,8 +647,14 @@ func mkSubBody(hdrBytes []byte, n builtNote) subReq {
 }
 
 func (w *world) sub(i int, r subReq) result {
+	if w.dead {
+		return result{status: "skipped", body: "-", signers: "-"}
+	}
 	in := w.insts[i]
-	res := w.post(in, "/sign-subtree", r.body)
+	res, answered := w.postWD(in, "/sign-subtree", r.body)
+	if !answered {
+		defer w.stuck(i, r.origin, "a sign-subtree request")
+	}
 	emit("sub", []string{fmt.Sprint(i), r.hdr, r.note.abstract}, strings.Join([]string{res.status, res.body, res.signers}, "|"))
 	if r.origin != "" {
 		sg := r.note.abstract[strings.LastIndex(r.note.abstract, ":")+1:]
